@@ -14,6 +14,19 @@ import (
 	"verifharness/vfutil"
 )
 
+// recycleDBs: every behaviour gets fresh collections in the same databases; after a few hundred of them the
+// databases are replaced so that their schema does not grow without bound
+func recycleDBs(t *testing.T, dbs map[string]*dbHandle, n int) map[string]*dbHandle {
+	if n == 0 || n%200 != 0 {
+		return dbs
+	}
+	names := sortedKeys(dbs)
+	for _, h := range dbs {
+		h.close()
+	}
+	return openDBs(t, names...)
+}
+
 func openDBs(t *testing.T, names ...string) map[string]*dbHandle {
 	dir := vfutil.Scratch("kvdb")
 	dbs := map[string]*dbHandle{}
@@ -114,6 +127,7 @@ func TestReplay(t *testing.T) {
 	dbs := openDBs(t, "s1", "s2", "s3")
 	acts := map[string]int{}
 	for bi, b := range bs {
+		dbs = recycleDBs(t, dbs, bi)
 		r, err := newRun(w, dbs, b.Stores, rep)
 		if err != nil {
 			t.Fatal(err)
